@@ -54,12 +54,18 @@ for r in RECL_ALL:
     # all 2x2 programs over {read_hold, read_if_equal, copy_read, replace, remove, rg_read}, one cell
     _c01_quick.append(run("reclaim", "proto_" + r, c=1, opt={"ops": 0xee}, weight=2.0 if st else 1.0))
     # focused: holders vs unlinkers with two preemptions
-    _c01_quick.append(run("reclaim", "proto_" + r, c=1 if st else 2, opt={"ops": 0x62}, weight=1.0))
+    _c01_quick.append(run("reclaim", "proto_" + r, c=2 if r in ("hp", "he", "qsbr", "ebr", "debra", "gebr_thr", "lfrc") else 1, opt={"ops": 0x62}, weight=1.0))
     _c01_thorough.append(run("reclaim", "proto_" + r, c=2, opt={"ops": 0xff}, weight=8.0 if st else 3.0))
     _c01_thorough.append(run("reclaim", "proto_" + r, c=2, opt={"ops": 0x66, "T": 3, "m": 1}, weight=2.0))
     _c01_thorough.append(run("reclaim", "proto_" + r, c=1, opt={"ops": 0x62, "cells": 2}, weight=1.0))
     if not st:
         _c01_thorough.append(run("reclaim", "proto_" + r, c=3, opt={"ops": 0x62}, weight=4.0))
+# guard copies against a concurrent hazard pointer scan need three preemptions (finding F-C01-1)
+for r in ["hp", "hpd", "he", "lfrc"]:
+    _c01_quick.append(run("reclaim", "proto_" + r, c=3, opt={"ops": 0x48, "m": 1}, weight=1.5))
+for r in RECL_ALL:
+    if r != "stamp":
+        _c01_thorough.append(run("reclaim", "proto_" + r, c=3, opt={"ops": 0x68, "m": 1}, weight=2))
 PLAN["C01"] = {
     "quick": _c01_quick, "thorough": _c01_thorough, "budget_s": {"quick": 170, "thorough": 1500},
     "rule": "client programs: T threads x m operations over {acquire+deref, acquire+hold across later operations, acquire_if_equal, copy/assign then reset the original, "
@@ -81,6 +87,8 @@ for r in RECL_ALL:
     _c02_thorough.append(run("reclaim", "proto_" + r, c=2, opt={"ops": 0x162, "allow_update_only": 1}, weight=4.0 if st else 2.0))
     _c02_thorough.append(run("reclaim", "proto_" + r, c=2, opt={"ops": 0x62, "allow_update_only": 1, "T": 3, "m": 1}, weight=2.0))
     _c02_thorough.append(run("reclaim", "proto_" + r, c=1, opt={"ops": 0x62, "allow_update_only": 1, "gens": 2, "m": 1}, weight=1.0))
+for r in ["hp", "he", "qsbr", "ebr", "nebr", "debra", "gebr_lazy", "gebr_thr", "lfrc"]:
+    _c02_quick.append(run("reclaim", "proto_" + r, c=2, opt={"ops": 0x62, "allow_update_only": 1}, weight=1.5))
 PLAN["C02"] = {
     "quick": _c02_quick, "thorough": _c02_thorough, "budget_s": {"quick": 170, "thorough": 1500},
     "rule": "client programs as for C01 with updaters only / updaters + holders, threads that exit early (operation `none`), 2-3 threads and up to 2 thread "
@@ -117,12 +125,13 @@ TITLES["C05"] = "vyukov_bounded and nikolaev_bounded queues are linearizable bou
 PLAN["C05"] = {
     "quick": [run("bounded", "vyukov", c=2, opt={"cap": 2}), run("bounded", "vyukov", c=1, opt={"cap": 4, "wrap": 5}),
               run("bounded", "nikolaev", c=2, opt={"cap": 1}), run("bounded", "nikolaev", c=2, opt={"cap": 2}),
-              run("bounded", "nikolaev", c=2, opt={"cap": 3, "wrap": 9})],
+              run("bounded", "nikolaev", c=2, opt={"cap": 3, "wrap": 9}), run("bounded", "nikolaev_p0", c=2, opt={"cap": 2})],
     "thorough": [run("bounded", "vyukov", c=3, opt={"cap": 2}, weight=6), run("bounded", "vyukov", c=2, opt={"cap": 4, "wrap": 9}),
                  run("bounded", "vyukov", c=2, opt={"cap": 2, "T": 3, "m": 1, "prefill": 1}),
                  run("bounded", "vyukov", c=1, opt={"cap": 2, "T": 2, "m": 3, "prefill": 1}, weight=3),
                  run("bounded", "nikolaev", c=3, opt={"cap": 1}, weight=3), run("bounded", "nikolaev", c=3, opt={"cap": 2}, weight=6),
                  run("bounded", "nikolaev", c=2, opt={"cap": 3, "wrap": 9}), run("bounded", "nikolaev", c=2, opt={"cap": 4, "wrap": 17}),
+                 run("bounded", "nikolaev_p0", c=3, opt={"cap": 2}, weight=4), run("bounded", "nikolaev_p0", c=2, opt={"cap": 1}),
                  run("bounded", "nikolaev", c=2, opt={"cap": 2, "T": 3, "m": 1}), run("bounded", "nikolaev", c=2, opt={"cap": 2, "T": 2, "m": 3}, weight=4),
                  run("bounded", "vyukov", c=2, opt={"cap": 2}, mode="wmm", d=1, weight=4), run("bounded", "nikolaev", c=2, opt={"cap": 2}, mode="wmm", d=1, weight=4)],
     "budget_s": {"quick": 120, "thorough": 1500},
@@ -205,7 +214,7 @@ TITLES["C12"] = "chase_work_stealing_deque hands out every pushed item exactly o
 PLAN["C12"] = {
     "quick": [run("deque", "grow2", c=0, opt={"thieves": 0, "m": 6, "steal_between": 1, "maxoffset": 5}),
               run("deque", "fixed2", c=0, opt={"thieves": 0, "m": 6, "steal_between": 1, "maxoffset": 3}),
-              run("deque", "grow2", c=2, weight=2), run("deque", "fixed2", c=2), run("deque", "grow4", c=1, opt={"m": 4}),
+              run("deque", "grow2", c=2, weight=2), run("deque", "fixed2", c=2), run("deque", "grow4", c=1, opt={"m": 4}), run("deque", "grow2", c=3, opt={"offset": 2, "prefill": 2}, weight=2),
               run("deque", "grow2", c=1, opt={"thieves": 2, "s": 1}), run("deque", "grow2", c=1, mode="wmm", d=1), run("deque", "fixed2", c=1, mode="wmm", d=1)],
     "thorough": [run("deque", "grow2", c=0, opt={"thieves": 0, "m": 8, "steal_between": 1, "maxoffset": 5}),
                  run("deque", "grow4", c=0, opt={"thieves": 0, "m": 8, "steal_between": 1, "maxoffset": 7, "prefill": 2}),
@@ -227,7 +236,7 @@ LEVEL_TEXT["C12"] = ("all interleavings with <= c preemptions (and, in wmm mode,
 # ------------------------------------------------------------------------------------------------- C13
 TITLES["C13"] = "left_right: readers always see one consistent, fully updated instance"
 PLAN["C13"] = {
-    "quick": [run("lr_seqlock", "left_right", c=3), run("lr_seqlock", "left_right", c=2, opt={"readers": 2, "loads": 1, "updates": 2}),
+    "quick": [run("lr_seqlock", "left_right", c=4), run("lr_seqlock", "left_right", c=2, opt={"readers": 2, "loads": 1, "updates": 2}),
               run("lr_seqlock", "left_right", c=2, opt={"writers": 2, "updates": 1, "readers": 1, "loads": 2}),
               run("lr_seqlock", "left_right", c=2, mode="wmm", d=1), run("lr_seqlock", "left_right", c=2, variant="tsanv")],
     "thorough": [run("lr_seqlock", "left_right", c=4, weight=3), run("lr_seqlock", "left_right", c=3, opt={"readers": 2, "loads": 1, "updates": 2}, weight=4),
@@ -251,7 +260,7 @@ TITLES["C14"] = "seqlock::load returns exactly some stored value, never torn or 
 _rt = ["seqrt_b16_s1", "seqrt_b16_s2", "seqrt_b16_s8", "seqrt_b24_s3", "seqrt_b12_s1", "seqrt_b12_s2", "seqrt_b20_s2", "seqrt_b28_s4", "seqrt_b9_s1", "seqrt_b9_s2"]
 PLAN["C14"] = {
     "quick": [run("lr_seqlock", t, c=0, weight=0.2) for t in _rt] +
-             [run("lr_seqlock", t, c=3) for t in ["seqlock_b16_s1", "seqlock_b16_s2", "seqlock_b16_s3", "seqlock_b24_s2", "seqlock_b12_s2", "seqlock_b16_s4"]] +
+             [run("lr_seqlock", t, c=4) for t in ["seqlock_b16_s1", "seqlock_b16_s2", "seqlock_b16_s3", "seqlock_b24_s2", "seqlock_b12_s2", "seqlock_b16_s4"]] +
              [run("lr_seqlock", "seqlock_b16_s2", c=2, mode="wmm", d=2), run("lr_seqlock", "seqlock_b16_s1", c=2, mode="wmm", d=1),
               run("lr_seqlock", "seqlock_b16_s2", c=2, opt={"writers": 2, "readers": 1, "loads": 2, "stores": 2}, weight=3),
               run("lr_seqlock", "seqlock_b12_s2", c=3, variant="tsanv")],
@@ -277,13 +286,13 @@ LEVEL_TEXT["C14"] = ("all interleavings with <= c preemptions (3 quick, 4 thorou
 # hm.cpp op bits: 0 emplace, 1 erase, 2 contains, 3 find, 4 emplace_or_get, 5 get_or_emplace, 6 get_or_emplace_lazy, 7 erase(find()), 8 operator[]
 TITLES["C08"] = "Harris-Michael list set and hash map are linearizable sets/maps"
 _c08_quick = [
-    run("hm", "set_hp", c=1, opt={"ops": 0x7}), run("hm", "set_ebr", c=1, opt={"ops": 0x93, "prefill": 3}), run("hm", "set_lfrc", c=1, opt={"ops": 0x13, "prefill": 1}),
+    run("hm", "set_hp", c=1, opt={"ops": 0x7, "prefill": 1}), run("hm", "set_ebr", c=1, opt={"ops": 0x83, "prefill": 3}), run("hm", "set_lfrc", c=1, opt={"ops": 0x13, "prefill": 1}),
     run("hm", "set_stamp", c=1, opt={"ops": 0x3, "prefill": 3}), run("hm", "set_greater_hp", c=1, opt={"ops": 0x7, "prefill": 2}),
-    run("hm", "map_b1_memo_scr_hp", c=1, opt={"ops": 0x23}), run("hm", "map_b1_lfrc", c=1, opt={"ops": 0x23, "prefill": 2}), run("hm", "map_b1_memo_scr_lfrc", c=1, opt={"ops": 0x62, "prefill": 2}),
+    run("hm", "map_b1_memo_scr_hp", c=1, opt={"ops": 0x23, "prefill": 2}), run("hm", "map_b1_lfrc", c=1, opt={"ops": 0x23, "prefill": 2}), run("hm", "map_b1_memo_scr_lfrc", c=1, opt={"ops": 0x62, "prefill": 2}),
     run("hm", "map_b2_hp", c=1, opt={"ops": 0x83, "prefill": 3}), run("hm", "map_b1_const_hp", c=1, opt={"ops": 0x103, "prefill": 1}),
-    run("hm", "map_b1_ebr", c=2, opt={"ops": 0x7, "keys": 1}), run("hm", "set_hp", c=2, opt={"ops": 0x7, "keys": 1}), run("hm", "map_b1_lfrc", c=2, opt={"ops": 0x23, "keys": 1}),
+    run("hm", "map_b1_ebr", c=2, opt={"ops": 0x3, "keys": 1}), run("hm", "set_hp", c=2, opt={"ops": 0x7, "keys": 1, "prefill": 1}), run("hm", "map_b1_lfrc", c=2, opt={"ops": 0x23, "keys": 1}),
     run("hm", "map_b1_hp", c=1, heap="reuse", opt={"ops": 0x23, "prefill": 2}),
-    run("hm", "map_b1_memo_scr_hp", c=0, opt={"T": 1, "m": 4, "ops": 0x1ff}), run("hm", "set_hp", c=0, opt={"T": 1, "m": 5, "ops": 0x9f}),
+    run("hm", "map_b1_memo_scr_hp", c=0, opt={"T": 1, "m": 4, "ops": 0x1ff}), run("hm", "set_hp", c=0, opt={"T": 1, "m": 4, "ops": 0x9f}),
     run("hm", "map_b2_memo_scr_hp", c=0, opt={"T": 1, "m": 4, "ops": 0x1ff, "keys": 3, "prefill": 5}),
 ]
 _c08_thorough = [run("hm", "set_" + r, c=1, opt={"ops": 0x97}, weight=3 if r == "stamp" else 1) for r in ["hp", "hpd", "he", "hed", "qsbr", "ebr", "nebr", "debra", "gebr_lazy", "stamp", "lfrc"]] + \
@@ -521,11 +530,11 @@ _c16_quick = \
     [run("queues", "%s_%s" % (q, r), c=1, solo=_SOLO) for q in ["ms", "ram_e2p0", "nik_e2p0"] for r in ["ebr", "qsbr", "stamp", "he"]] + \
     [run("reclaim", "proto_" + r, c=1, solo=_SOLO, opt={"ops": 0xee}) for r in ["hp", "he", "qsbr", "ebr", "debra", "lfrc"]] + [run("reclaim", "proto_stamp", c=1, solo=_SOLO, opt={"ops": 0x62})] + \
     [run("bounded", "vyukov", c=2, solo=_SOLO, opt={"cap": 2}), run("bounded", "nikolaev", c=2, solo=_SOLO, opt={"cap": 2}),
-     run("kfifo", "kb", c=2, r=1, solo=_SOLO, opt={"k": 2, "segs": 2}), run("kfifo", "kf_hp", c=1, r=1, solo=_SOLO, opt={"k": 2}),
+     run("kfifo", "kb", c=2, r=0, solo=_SOLO, opt={"k": 2, "segs": 2, "prefill": 1}), run("kfifo", "kf_hp", c=1, r=1, solo=_SOLO, opt={"k": 2}),
      run("kfifo", "kb_boundary", c=0, horizon=8000000, wall=120, solo=_SOLO, opt={"segs": 65537, "fill": 65537, "ops": 70000}),
      run("deque", "grow2", c=2, solo=_SOLO), run("deque", "fixed2", c=2, solo=_SOLO),
      run("lr_seqlock", "left_right", c=3, solo=_SOLO), run("lr_seqlock", "seqlock_b16_s2", c=3, solo=_SOLO), run("lr_seqlock", "seqlock_b16_s3", c=3, solo=_SOLO),
-     run("hm", "set_hp", c=2, solo=_SOLO, opt={"ops": 0x7, "keys": 1}), run("hm", "map_b1_lfrc", c=2, solo=_SOLO, opt={"ops": 0x23, "keys": 1}), run("hm", "iset_hp", c=1, solo=_SOLO, opt={"keys": 2}),
+     run("hm", "set_hp", c=2, solo=_SOLO, opt={"ops": 0x7, "keys": 1, "prefill": 1}), run("hm", "map_b1_lfrc", c=2, solo=_SOLO, opt={"ops": 0x23, "keys": 1, "prefill": 1}), run("hm", "iset_hp", c=1, solo=_SOLO, opt={"keys": 2}),
      run("hm", "imap_b1_memo_scr_hp", c=1, solo=_SOLO, opt={"keys": 2, "m": 1}),
      run("vy", "map_st_s1_hp", c=1, solo=_SOLO, opt={"m": 1, "keys": 5, "prefill": 31, "cap": 128, "ops": 0x7}), run("vy", "map_st_s1_hp", c=0, solo=_SOLO, opt={"T": 1, "m": 3, "keys": 5, "cap": 128, "prefill": 15, "ops": 0x3f}),
      run("vy", "map_tm_i1_hp", c=1, solo=_SOLO, opt={"m": 1, "keys": 5, "prefill": 31, "cap": 128, "ops": 0x7})]
